@@ -112,6 +112,15 @@ def chunk(item):
     return out
 
 
+def history_task(item):
+    """Call history across curves in ONE fresh process: all of universe A, then all of universe B (B's verdicts are reported)."""
+    keyA, keyB = item
+    gA, pA, *_ = get_universe(keyA)
+    chunk((keyA, 0, len(pA) ** 2))
+    gB, pB, *_ = get_universe(keyB)
+    return chunk((keyB, 0, len(pB) ** 2))
+
+
 UNIV = {'quick': [(c, (0., 1.), 1, 1) for c in CURVES] + [('UnitSquare', (0., 0.3, 1.), 0, 1), ('Circle', (0., 0.125), 0, 1)],
         'thorough': [(c, (0., 1.), 1, 2) for c in CURVES] + [(c, (0., 1., 2.), 1, 1) for c in CURVES] + [(c, (0., 0.3, 1.), 1, 1) for c in CURVES]
                     + [(c, (0., 0.125), 0, 2) for c in CURVES]}
@@ -137,12 +146,22 @@ def run(ctx):
         worst = max(worst, r['worst'])
         for tag, v in r['viols']:
             ctx.violation({'tag': tag, 'curve': v.get('curve'), 'pw_exact': v.get('pw_exact')}, '{}: {}'.format(tag, v), v)
+    hk = [(c, (0., 1.), 0, 0) for c in CURVES]
+    hitems = [(a, b) for a in hk for b in hk if a != b]
+    resH = common.pmap_fresh(history_task, hitems, ctx.jobs)
+    nH = 0
+    for it, r in zip(hitems, resH):
+        nH += r['combos']
+        for tag, v in r['viols']:
+            ctx.violation({'tag': 'history:' + tag, 'curve': v.get('curve'), 'pw_exact': v.get('pw_exact'), 'after': it[0][0]},
+                          '{} in a process that served {} before: {}'.format(tag, it[0][0], v), v)
+    combos += nH
     if combos == 0 or dummy == 0:
         raise common.HarnessError('vacuous C11 run')
     cov = {'evaluations': n, 'distinct_nontrivial': combos,
            'rule': 'one case = (ordered causal parent pair, split kind of test, split kind of trial, switch value) with all pieces of aspect <= 32; '
                    'evaluations = bilform calls on pieces; all cases distinct by construction',
-           'universes': sizes, 'split_combinations_checked': combos, 'combinations_skipped_by_aspect_filter': skipped,
+           'universes': sizes, 'split_combinations_checked': combos, 'cross_curve_histories_in_fresh_processes': len(hitems), 'history_combinations': nH, 'combinations_skipped_by_aspect_filter': skipped,
            'virtual_vs_real_child_pairs_bitwise': dummy, 'worst_error_in_units_of_sqrtDD': worst,
            'samples': [{'test': [[0.0, 1.0], [0.0, 1.0]], 'trial': [[0.0, 0.5], [1.0, 1.5]], 'split_test': 'quarters', 'split_trial': 'time'}],
            'exhaustive': True}
